@@ -471,8 +471,112 @@ type c13case struct {
 	Perm int
 }
 
-// c13extras are the additional recheck paths tried on top of the touched set.
-var c13extras = append([]string{"", "q", "q/r", "d/q", "a/x/z/deeper"}, c13Universe...)
+// c13misc are recheck paths that name nothing on disk (or lie below a file).
+var c13misc = []string{"q", "q/r", "d/q", "a/x/z/deeper"}
+
+// supersets says which supersets "reported paths ∪ S" of the reported paths
+// are additionally tried as recheck sets at the final scan of a chain (the
+// property holds for any recheck set that contains every changed path).
+type supersets struct {
+	// Level 0: none. Level 1: S from the ancestors (incl. the root "") of the
+	// reported paths, only for the chain that scans once at the end. Level 2:
+	// S from ancestors, their and the reported paths' siblings, for every
+	// chain, plus each c13misc path alone.
+	Level int
+	// MaxS bounds |S|; the full ancestor chain is always tried as well.
+	MaxS int
+	// All additionally tries every subset of ancestors ∪ siblings (first 10).
+	All bool
+}
+
+// supersetsOf lists the sets S (sorted slices) for one recheck set.
+func supersetsOf(recheck map[string]bool, m model, sp supersets) [][]string {
+	if sp.Level == 0 {
+		return nil
+	}
+	anc := map[string]bool{}
+	for p := range recheck {
+		for p != "" {
+			p = parentOf(p)
+			if !recheck[p] {
+				anc[p] = true
+			}
+		}
+	}
+	var cands []string
+	for p := range anc {
+		cands = append(cands, p)
+	}
+	sort.Strings(cands)
+	chain := append([]string{}, cands...)
+	if sp.Level >= 2 {
+		names := map[string]bool{}
+		for _, q := range c13Universe {
+			names[q] = true
+		}
+		for q := range m {
+			names[q] = true
+		}
+		parents := map[string]bool{}
+		for p := range recheck {
+			if p != "" {
+				parents[parentOf(p)] = true
+			}
+		}
+		for p := range anc {
+			if p != "" {
+				parents[parentOf(p)] = true
+			}
+		}
+		var sibs []string
+		for q := range names {
+			if q != "" && parents[parentOf(q)] && !recheck[q] && !anc[q] {
+				sibs = append(sibs, q)
+			}
+		}
+		sort.Strings(sibs)
+		cands = append(cands, sibs...)
+	}
+	seen := map[string]bool{}
+	var out [][]string
+	add := func(set []string) {
+		if len(set) == 0 {
+			return
+		}
+		k := strings.Join(set, "\x00")
+		if !seen[k] {
+			seen[k] = true
+			out = append(out, append([]string{}, set...))
+		}
+	}
+	var rec func(start int, cur []string, limit int, pool []string)
+	rec = func(start int, cur []string, limit int, pool []string) {
+		add(cur)
+		if len(cur) == limit {
+			return
+		}
+		for i := start; i < len(pool); i++ {
+			rec(i+1, append(cur, pool[i]), limit, pool)
+		}
+	}
+	rec(0, nil, sp.MaxS, cands)
+	add(chain)
+	if sp.All {
+		pool := cands
+		if len(pool) > 10 {
+			pool = pool[:10]
+		}
+		rec(0, nil, len(pool), pool)
+	}
+	if sp.Level >= 2 {
+		for _, x := range c13misc {
+			if !recheck[x] {
+				add([]string{x})
+			}
+		}
+	}
+	return out
+}
 
 // compareScans is the C13 oracle: "produces exactly the same snapshot as a
 // fresh full scan" — content, behaviour flags and all four counters.
@@ -498,7 +602,7 @@ type c13stats struct {
 // every observer (every scan schedule) perform its accelerated scans, each
 // compared with a cold scan of the same disk state. It returns the first
 // difference ("" if none); logf, when non-nil, receives a step-by-step trace.
-func runC13(t testing.TB, bases []*world, c c13case, withExtras bool, logf func(string, ...interface{})) (string, c13stats, error) {
+func runC13(t testing.TB, bases []*world, c c13case, sup supersets, logf func(string, ...interface{})) (string, c13stats, error) {
 	var st c13stats
 	if logf == nil {
 		logf = func(string, ...interface{}) {}
@@ -574,23 +678,23 @@ func runC13(t testing.TB, bases []*world, c c13case, withExtras bool, logf func(
 			}
 			logf("  schedule %b: accelerated scan with recheck %q equals the full scan", ob.schedule, keys)
 			// "optionally plus extra paths": one more accelerated scan from the
-			// same baseline per extra path; not chained.
-			if withExtras && i == k-1 {
-				for _, x := range c13extras {
-					if recheck[x] {
-						continue
+			// same baseline per superset of the reported paths; not chained.
+			if i == k-1 && (sup.Level >= 2 || (sup.Level == 1 && ob.schedule == 1<<uint(k-1))) {
+				for _, extra := range supersetsOf(recheck, w.m, sup) {
+					rx := map[string]bool{}
+					for _, x := range extra {
+						rx[x] = true
 					}
-					rx := map[string]bool{x: true}
 					for p := range recheck {
 						rx[p] = true
 					}
 					sx, _, _, err := doScan(root, ob.snap, rx, ob.cache, ign, ob.ic, md)
 					st.scans++
 					if err != nil {
-						return fmt.Sprintf("schedule %b after edit %d (%v), recheck %q + extra %q: accelerated scan failed: %v", ob.schedule, i, o, keys, x, err), st, nil
+						return fmt.Sprintf("schedule %b after edit %d (%v), recheck %q + extra %q: accelerated scan failed: %v", ob.schedule, i, o, keys, extra, err), st, nil
 					}
 					if d := compareScans(sx, coldSnap); d != "" {
-						return fmt.Sprintf("schedule %b after edit %d (%v), recheck %q + extra %q: %s", ob.schedule, i, o, keys, x, d), st, nil
+						return fmt.Sprintf("schedule %b after edit %d (%v), recheck %q + extra %q: %s", ob.schedule, i, o, keys, extra, d), st, nil
 					}
 				}
 			}
@@ -612,7 +716,7 @@ func TestC13(t *testing.T) {
 		var c c13case
 		must(t, json.Unmarshal(raw, &c))
 		t.Logf("replay base tree %d: %s", c.Base, describe(bases[c.Base].m))
-		what, st, err := runC13(t, bases, c, true, t.Logf)
+		what, st, err := runC13(t, bases, c, supersets{Level: 2, MaxS: 2, All: true}, t.Logf)
 		must(t, err)
 		t.Logf("accelerated scans %d; verdict %q", st.scans, what)
 		r.Case(vr.J(c), true)
@@ -636,11 +740,13 @@ func TestC13(t *testing.T) {
 	}
 	threeModes := []modes{allModes[0], allModes[3], allModes[4]} // portable/portable, posix-raw/manual, ignore/portable
 	modeSets := map[int][]modes{1: allModes, 2: allModes[:1]}
-	extrasUpTo := 1
+	// sups[n] = supersets of the reported paths tried on sequences of length n
+	// (first mode pair of the set only).
+	sups := map[int]supersets{1: {Level: 2, MaxS: 2}, 2: {Level: 1, MaxS: 2}}
 	maxLen := 2
 	if vr.Thorough() {
 		modeSets = map[int][]modes{1: allModes, 2: threeModes, 3: allModes[:1]}
-		extrasUpTo = 2
+		sups = map[int]supersets{1: {Level: 2, MaxS: 2, All: true}, 2: {Level: 2, MaxS: 2}, 3: {Level: 1, MaxS: 1}}
 		maxLen = 3
 	}
 	deadline := vr.Deadline(50*time.Second, 510*time.Second)
@@ -660,17 +766,19 @@ func TestC13(t *testing.T) {
 			break
 		}
 	}
-	r.Rule(fmt.Sprintf("%d base trees (a in {absent, file, dir{x}} x d in 8 shapes up to depth 3, incl. a link, a FIFO, executable files; plus a root that is itself a file, edited in place) x every sequence of 1..%d enabled edits from {mkfile, mkdir, mklink, rm (recursive), mv (incl. replacing a file or an empty directory), edit (same size, later mtime), grow, chmod, swap (same size and mtime, new inode), touch} over the path universe %v; for every sequence every scan schedule (which edits are followed by a scan; 2^(n-1)) is run as a chain of accelerated core.Scan calls whose baseline/cache/ignore cache are the previous accelerated result and whose recheck set is exactly the paths created/deleted/modified since the previous scan (no ancestors); each accelerated result is compared with a cold core.Scan of the same disk; the final scan of every chain is repeated with each of %d extra recheck paths (one at a time) for sequences of length <= %d, first mode pair. Mode pairs: length 1 all 6; length 2 portable/portable (quick) or portable/portable, posix-raw/manual, ignore/portable (thorough); length 3 (thorough only, run last, under the time budget) portable/portable. Non-trivial = at least one edit changed what a full scan returns; distinct by (base, edit sequence, modes).",
-		len(bases), maxLen, c13Universe, len(c13extras), extrasUpTo))
+	r.Rule(fmt.Sprintf("%d base trees (a in {absent, file, dir{x}} x d in 8 shapes up to depth 3, incl. a link, a FIFO, executable files; plus a root that is itself a file, edited in place) x every sequence of 1..%d enabled edits from {mkfile, mkdir, mklink, rm (recursive), mv (incl. replacing a file or an empty directory), edit (same size, later mtime), grow, chmod, swap (same size and mtime, new inode), touch} over the path universe %v; for every sequence every scan schedule (which edits are followed by a scan; 2^(n-1)) is run as a chain of accelerated core.Scan calls whose baseline/cache/ignore cache are the previous accelerated result and whose recheck set is exactly the paths created/deleted/modified since the previous scan (no ancestors); each accelerated result is compared with a cold core.Scan of the same disk; at the final scan, supersets of the reported paths are tried as recheck sets too (reported ∪ S, not chained): length 1: every S of size <= 2 (thorough: every subset) from the ancestors (incl. the root) of the reported paths and the siblings of both, the full ancestor chain, and each of %d paths naming nothing, for every chain; length 2: S of size <= 2 from the ancestors plus the full chain for the scan-once-at-the-end chain (thorough: as length 1 with |S| <= 2); length 3: single ancestors and the full chain (first mode pair only in each case, bound %d). Mode pairs: length 1 all 6; length 2 portable/portable (quick) or portable/portable, posix-raw/manual, ignore/portable (thorough); length 3 (thorough only, run last, under the time budget) portable/portable. Non-trivial = at least one edit changed what a full scan returns; distinct by (base, edit sequence, modes).",
+		len(bases), maxLen, c13Universe, len(c13misc), sups[1].MaxS))
 	r.Assume("the harness stamps a distinct, strictly increasing modification time on every file it writes and keeps replaced inodes allocated, so every content change alters size, mtime or identity (the property's precondition) by construction; 'swap' keeps size and mtime and changes only the inode",
-		"reported paths = every created, deleted or modified path incl. all members of a removed or renamed subtree; never their ancestors",
+		"reported paths = every created, deleted or modified path incl. all members of a removed or renamed subtree; ancestors and siblings appear only through the enumerated supersets",
 		"Mutagen ignorer with no patterns, SHA-1, probe mode probe, Linux/ext4",
 		"only snapshot equality is judged; digest-cache equality with the cold cache is recorded as an outcome")
 
 	var seqs, scans, cacheDiffs atomic.Int64
 	// pass evaluates every sequence whose length is in [minLen, maxLen]; it
 	// reports whether the time budget cut it short.
-	pass := func(minLen, maxLen int) bool {
+	// modeFrom/modeTo select the slice of modeSets[len] that the pass runs;
+	// budgeted=false exempts the pass from the time budget.
+	pass := func(minLen, maxLen, modeFrom, modeTo int, budgeted bool) bool {
 		var capped atomic.Bool
 		vr.Parallel(len(jobs), func(ji int) {
 			l := r.Local()
@@ -690,13 +798,20 @@ func TestC13(t *testing.T) {
 				if len(ops) < minLen {
 					return
 				}
-				if time.Now().After(deadline) {
+				if budgeted && time.Now().After(deadline) {
 					capped.Store(true)
 					return
 				}
 				for mi, md := range modeSets[len(ops)] {
+					if mi < modeFrom || mi >= modeTo {
+						continue
+					}
 					c := c13case{j.base, ops, int(md.Sym), int(md.Perm)}
-					what, st, err := runC13(t, bases, c, mi == 0 && len(ops) <= extrasUpTo, nil)
+					sp := supersets{}
+					if mi == 0 {
+						sp = sups[len(ops)]
+					}
+					what, st, err := runC13(t, bases, c, sp, nil)
 					if err != nil {
 						t.Errorf("INFRA: %v (%s)", err, vr.J(c))
 						return
@@ -709,7 +824,7 @@ func TestC13(t *testing.T) {
 					case what != "":
 						l.Outcome("VIOLATION")
 						r.Violate(vr.J(c), what, c, func() bool {
-							w, _, err := runC13(t, bases, c, true, nil)
+							w, _, err := runC13(t, bases, c, supersets{Level: 2, MaxS: 2, All: true}, nil)
 							return err == nil && w != ""
 						})
 					case st.cacheDiff > 0:
@@ -727,11 +842,19 @@ func TestC13(t *testing.T) {
 		})
 		return capped.Load()
 	}
-	if pass(1, 2) {
-		r.NotExhaustive("time budget reached inside the length<=2 pass; shards are (first edit, base) in a fixed order, the tail was not run")
+	// Length 1 (with the widest superset enumeration) runs first so that no
+	// budget cut can take it away; then length 2; then length 3.
+	// The length-1 pass under the first mode pair carries the widest superset
+	// enumeration; it is small and is not subject to the time budget.
+	pass(1, 1, 0, 1, false)
+	r.Set("scans_in_unbudgeted_length1_pass", scans.Load())
+	if pass(1, 1, 1, 99, true) {
+		r.NotExhaustive("length 1 under portable/portable (with all supersets) was run completely; the time budget ended the length-1 pass under the other mode pairs")
+	} else if pass(2, 2, 0, 99, true) {
+		r.NotExhaustive("every sequence of length 1 was run; the time budget ended the length-2 pass (shards are (first edit, base) in a fixed order, the tail was not run)")
 	} else if maxLen == 3 {
 		before := seqs.Load()
-		if pass(3, 3) {
+		if pass(3, 3, 0, 99, true) {
 			r.NotExhaustive(fmt.Sprintf("every sequence of length <= 2 was run; the time budget ended the length-3 pass after %d of its sequences (shards are (first edit, base) in a fixed order; the tail was not run)", seqs.Load()-before))
 		}
 	}
